@@ -56,6 +56,11 @@ var distributiveAggregations = map[parser.ItemType]struct{}{
 
 // DistributedExecutionOptimizer produces a logical plan suitable for
 // distributed Query execution.
+var vectorWideFunctions = map[string]struct{}{
+	"scalar":             {},
+	"histogram_quantile": {},
+}
+
 type DistributedExecutionOptimizer struct {
 	Endpoints api.RemoteEndpoints
 }
@@ -143,6 +148,13 @@ func isDistributive(expr *parser.Expr) bool {
 	case *parser.AggregateExpr:
 		// Certain aggregations are currently not supported.
 		if _, ok := distributiveAggregations[aggr.Op]; !ok {
+			return false
+		}
+	case *parser.Call:
+		// These functions look at the whole input vector, not at one series:
+		// scalar() counts its elements, histogram_quantile() gathers the
+		// buckets of a histogram, which can live in different partitions.
+		if _, ok := vectorWideFunctions[aggr.Func.Name]; ok {
 			return false
 		}
 	}
